@@ -153,10 +153,10 @@ pub struct Attr {
 
 #[derive(Clone, Debug, PartialEq, Eq, Serialize, Deserialize, Default)]
 pub struct Facets {
-    pub min_inclusive: Option<i32>,
-    pub max_inclusive: Option<i32>,
-    pub min_exclusive: Option<i32>,
-    pub max_exclusive: Option<i32>,
+    pub min_inclusive: Option<i64>,
+    pub max_inclusive: Option<i64>,
+    pub min_exclusive: Option<i64>,
+    pub max_exclusive: Option<i64>,
     pub length: Option<u8>,
     pub min_length: Option<u8>,
     pub max_length: Option<u8>,
